@@ -240,3 +240,53 @@ VP_HARNESS(h_enc_reset)
     Frames* fr = doEncode(*e, pk);
     checkAgainstModel(*fr, *m, *s, *e);
 }
+
+// C09/C10 direct history check: a real earlier encode call (other version, chosen message type / payload length / frame
+// size) followed by the batch; the second call must produce what the protocol model prescribes for a fresh encoder whose
+// counter continues where the first call stopped.
+#ifndef PT0
+#define PT0 T0  // message type of the earlier call's packet
+#endif
+#ifndef PL0
+#define PL0 8   // its payload length
+#endif
+#ifndef PMAX
+#define PMAX MAXB  // the earlier call's max frame size
+#endif
+VP_HARNESS(h_enc_twice)
+{
+    Src* s = &g_src;
+    drawSrc(*s);
+    Packet* pk[3] = {nullptr, nullptr, nullptr};
+    for (unsigned i = 0; i < K; ++i)
+        pk[i] = mkPacket(*s, i);
+    Encoder* e = new Encoder;
+    e->setDeviceId(s->deviceId);
+    e->setStreamId(s->streamId);
+    VerifAccess::seq(*e) = s->start;
+    {
+        static uint8_t junk[LMAX];
+        vp_bytes(junk, PL0);
+        Payload pl(PayloadType(static_cast<CmpHeader::MessageType>(PT0), RT), junk, PL0);
+        Packet* p0 = new Packet;
+        p0->setPayload(pl);
+        p0->setVersion(static_cast<uint8_t>(s->version ^ 0x5A));
+        p0->setTimestamp(vp_u64());
+        p0->setCommonFlags(vp_u8());
+        DataContext c0{0, PMAX};
+        Frames* f0 = new Frames(e->encode(*p0, c0));
+        vp_assert(f0->size() >= 1, "C10: the earlier call produced frames");
+    }
+    s->start = e->getSequenceCounter();
+    Model* m = &g_model;
+    m->n = 0;
+    buildModel(*m, *s);
+    Frames* fr = doEncode(*e, pk);
+    checkAgainstModel(*fr, *m, *s, *e);
+    vp_assert(fr->size() == m->n, "C10: same number of frames as a fresh encoder");
+    for (unsigned f = 0; f < MAXF; ++f)
+        if (f < fr->size() && f < m->n && (*fr)[f].size() == m->size[f])
+            for (unsigned b = 0; b < MAXB; ++b)
+                if (b < (*fr)[f].size())
+                    vp_assert((*fr)[f][b] == m->bytes[f][b], "C10: same frame bytes as a fresh encoder (counter offset aside)");
+}
